@@ -9,6 +9,7 @@ import (
 	"os"
 
 	"github.com/coredhcp/coredhcp/logger"
+	"github.com/sirupsen/logrus"
 )
 
 type family struct {
@@ -26,12 +27,23 @@ func main() {
 	if os.Getenv("VERIF_LOG") == "" {
 		logger.WithNoStdOutErr(logger.GetLogger("harness"))
 	}
+	// -loglevel=debug|info|warning|error anywhere on the command line: the server's log level (a start-up flag of coredhcp,
+	// default info). No property depends on it, so every scenario may be run under any level.
+	args := []string{}
+	for _, a := range os.Args[2:] {
+		if lv, ok := map[string]logrus.Level{"-loglevel=debug": logrus.DebugLevel, "-loglevel=info": logrus.InfoLevel,
+			"-loglevel=warning": logrus.WarnLevel, "-loglevel=error": logrus.ErrorLevel}[a]; ok {
+			logger.GetLogger("harness").Logger.SetLevel(lv)
+			continue
+		}
+		args = append(args, a)
+	}
 	f, ok := families[os.Args[1]]
 	if !ok {
 		fmt.Fprintf(os.Stderr, "unknown family %q\n", os.Args[1])
 		os.Exit(2)
 	}
-	if err := f(os.Args[2:]); err != nil {
+	if err := f(args); err != nil {
 		fmt.Fprintf(os.Stderr, "harness %s: %v\n", os.Args[1], err)
 		os.Exit(2)
 	}
